@@ -21,6 +21,7 @@ static vsbx::Library g_libs[2] = {
 
 using SbxH2 = rlbox::rlbox_vsbx<vsbx::AbiA, 16, 2>;
 using SbxH8 = rlbox::rlbox_vsbx<vsbx::AbiA, 16, 8>;
+using SbxH8n = rlbox::rlbox_vsbx<vsbx::AbiAn, 16, 8>;   // no needs_internal_lookup_symbol
 constexpr int NS = 3, NO = 3, NF = 70, NPROBE = 5;
 static int g_ran[NF];
 
@@ -161,6 +162,9 @@ struct Hist : HistBase {
         auto p = reinterpret_cast<const char*>(f.UNSAFE_unverified());
         for (auto& L : g_libs)
           if (p > L.desc.data() && p < L.desc.data() + L.desc.size()) return std::string("ok ") + L.libname + "." + L.fns[(size_t)(p - L.desc.data()) - 1].name;
+        // a backend without internal lookup hands out the host-callable address itself
+        for (auto& L : g_libs)
+          for (auto& fn : L.fns) if (reinterpret_cast<const char*>(fn.callable) == p) return std::string("ok ") + L.libname + "." + fn.name;
         return p ? "ok other" : "ok null";
       } else return "na";
     }
@@ -219,6 +223,7 @@ int main()
       vsbx::g_keep_stale_fields = t.size() > 2 && t[2] == "stale";
       if (t[1] == "vsbx2") g_h.reset(new Hist<SbxH2, true>());
       else if (t[1] == "vsbx8") g_h.reset(new Hist<SbxH8, true>());
+      else if (t[1] == "vsbx8n") g_h.reset(new Hist<SbxH8n, true>());
       else g_h.reset(new Hist<rlbox::rlbox_noop_sandbox, false>());
       return "ok";
     }
